@@ -19,7 +19,7 @@ ASSUMPTIONS = ["population changes are scripted in end_round, plus deletions fro
                "an event is addressed to the agent object that carried the id when the event was sent (identity tokens of the harness agents): an id handed to another object later is not the addressee",
                "handlers are registered for the states active / idle / busy; an event that falls due while its receiver is in the handler-less state offline must be handled exactly once as soon as... at some later turn of that agent in a state with handlers (which turn is not judged), never twice, never by another agent",
                "an event whose delivery step lies after the end of the run is 'open', not lost"]
-REQUIRED = {"events_sent": 2000, "events_handled": 1500, "contract_evaluations": 1500, "delayed_events": 500}
+REQUIRED = {"drive:run-nocollect": 50, "drive:steps-nocollect": 50, "drive:steps": 50, "events_sent": 2000, "events_handled": 1500, "contract_evaluations": 1500, "delayed_events": 500}
 BUDGET_S = {"quick": 100, "thorough": 1200}
 DTS = ["1", "0.5", "0.25", "0.2", "0.1"]
 
@@ -136,7 +136,8 @@ def make_random(seed):
             script["send"].setdefault(str(k), []).append([snd, rcv, delay_value(d, dt), uid])
             uid += 1
     agents = [{"name": "a", "count": n_a}, {"name": "b", "count": n_b}]
-    return dict(dt=dt, rounds=rounds, script=script, agents=agents)
+    # how the run is driven: whole run / whole run without data collection (as training does) / single steps, with and without data collection
+    return dict(dt=dt, rounds=rounds, script=script, agents=agents, drive=["run", "run-nocollect", "steps", "steps-nocollect"][seed % 4])
 
 
 def make_enum(case, combo):
@@ -267,8 +268,15 @@ def check_trace(sc, log, event_stats):
 def run_script(sc):
     from vlib import abm
     m = abm.new_model(0, sc["rounds"] - 1, float(sc["dt"]), script=sc["script"], agents=sc["agents"])
+    drive = sc.get("drive", "run")
     try:
-        m.run()
+        if drive.startswith("steps"):
+            # Model.run_step(step): the externally driven single step (round 0, step k)
+            per_round = int(round(1 / float(sc["dt"])))
+            for k in range(sc["rounds"] * per_round):
+                m.run_step(k, collect_data=(drive == "steps"))
+        else:
+            m.run(collect_data=(drive == "run"))
     except ContractBroken as e:
         return dict(kind="wrong-agent", error=str(e)[:200], via="receive_event contract"), dict(sent=0, handled=0, delayed=0)
     except Exception as e:
@@ -295,6 +303,7 @@ def run_case(case):
         counters["events_handled"] = counters.get("events_handled", 0) + st["handled"]
         counters["delayed_events"] = counters.get("delayed_events", 0) + st["delayed"]
         counters["scripts"] = counters.get("scripts", 0) + 1
+        counters["drive:" + sc.get("drive", "run")] = counters.get("drive:" + sc.get("drive", "run"), 0) + 1
         if st["delayed"] or sc["script"].get("end"):
             nts.append(repr(sorted(sc["script"]["send"].items())) + repr(sorted(sc["script"].get("end", {}).items())) + sc["dt"])
         if w is not None and witness is None:
